@@ -8,7 +8,6 @@ Lean model (`save`, `load`, `loaded` ops).  All numbers are dyadic: every compar
 import json
 import os
 import random
-import struct
 import tempfile
 import warnings
 from fractions import Fraction
@@ -23,27 +22,39 @@ import discretisedfield as df
 
 PID = "C10"
 RULE = ("(a) round trip: fields on 1-4-d meshes, all four int/float combinations of region and subregion corners (0-3 "
-        "possibly overlapping subregions), renamed dims/units, bc strings, int/float tolerance factor, nvdim 1-4, labels "
-        "default/custom/absent, unit present/absent/empty, float64/complex128/int64 (+ float32/complex64/int32) data with "
-        "NaN/inf/-0.0, masks; written with Field.to_file(.h5/.hdf5) into a temp dir; the file is read through h5py (attribute "
-        "names, dtypes, shapes, values) and compared with the model's store (op save), Field.from_file's result is compared "
-        "attribute by attribute, dtype kinds included, with the model's reader run on the h5py view (op load) and with the "
-        "spec `loaded` (op loaded); (b) tampered files (type, version, unordered corners, wrong n/nvdim/labels/shapes, "
-        "broadcastable arrays, stray subregions, duplicate names): accept/reject and result vs model; (c) legacy-layout files "
-        "fabricated with h5py (int/float corners, optional side-car json); (d) suffix dispatch.  Oracle on the real code alone: "
-        "from_file(to_file(f)) == f and every item the property lists is identical (values bit-identical; int data numerically); "
-        "legacy files load to the documented field.  non-trivial = round trip of a field with >= 2 cells whose data are not "
-        "constant, or a tampered/legacy file")
+        "possibly overlapping subregions; every ndim x region kind x subregion kind x data kind enumerated once, then random), "
+        "dyadic geometry with subregions / arbitrary binary64 corners without, renamed dims/units, bc strings, int/float "
+        "tolerance factor, nvdim 1-4, labels default/custom/absent, unit present/absent/empty, float64/complex128/int64 "
+        "(+ float32/complex64/int32) data with full-mantissa values, NaN payloads, inf, -0.0, masks; written with "
+        "Field.to_file(.h5/.hdf5) into a fresh temp dir; the file is read through h5py alone (object names, dtypes, shapes, "
+        "values) and compared with the model's store (op save); Field.from_file's result is compared attribute by attribute, "
+        "dtype kinds included, with the model's reader run on the h5py view (op load); the driver decides h5Load(view) = "
+        "loaded(f) and h5Load(h5Save f) = h5Load(view) (op spec) and evaluates the theorems' hypothesis Inv on the state of "
+        "the field written and of the field read (op inv); a second write/read must be a fixed point; (b) 36 kinds of tampered "
+        "files (type, version, unordered/equal corners, wrong n/nvdim/labels/shapes, broadcastable arrays, stray/off-grid/"
+        "duplicate subregions, upper-case bc, dtype changes): accept/reject and resulting state vs model; (c) legacy-layout files "
+        "fabricated with h5py (int/float corners in either order, optional valid/invalid side-car json) vs the model of the "
+        "reader as coded, and the documented reader executed with the real constructors vs legacyLoadDoc; (d) suffix dispatch "
+        "of to_file/from_file for 14 suffixes.  Oracle on the real code alone: from_file(to_file(f)) == f and every item the "
+        "property lists is identical (corners, names, units, tolerance, n, bc, subregion names/order/corners/meta, labels, "
+        "unit incl. None, values bit-identical - int data numerically, real stays real, complex stays complex - validity, "
+        "to_file leaves the field untouched, the datasets hold the numbers bit for bit); legacy files load to the documented "
+        "field.  non-trivial = round trip of a field with >= 2 cells whose cell values are not all equal, or a tampered/legacy file")
 TRUSTED = ["harness/c10.py + driver JSON glue", "h5py/libhdf5 byte encoding (only dtype/cast semantics are modelled)",
            "the h5py view used to observe the written file"]
 ASSUMPTIONS = ["exact regime only: dyadic corners and cells, subregions on cell vertices (clear of the 0.1 % divisibility and "
                "1e-12 alignment thresholds); nothing on the HDF5 code path does arithmetic on values, so equality is demanded",
                "component labels that collide with Field attributes are not generated (constructor's business)",
                "bc strings use ASCII characters only (Lean's String.toLower is ASCII-only, Python's str.lower is Unicode)",
-               "theorem hypotheses carried explicitly: unit != 'None' (string), |int data| <= 2^53 is NOT needed by the model "
-               "(rationals) but is by binary64: see known findings D22/D23"]
+               "the hypotheses of the round-trip theorems (Inv, decidable) are evaluated by the driver on the state of every real "
+               "field written and read (op inv); the spec comparison is made where they hold",
+               "the component-to-axis mapping is not stored in the file and not in the property's list: a custom mapping comes "
+               "back as the default one (tag observation:custom-vdim_mapping-not-restored), model and code agree on that"]
 UNPROVED = ["legacy_read is FALSE of the code as it stands (every legacy file is rejected: finding D21); proved instead: "
-            "legacy_rejected (the code) and legacy_read_doc (the documented reader, nvdim=dim)"]
+            "legacy_rejected (the code) and legacy_read_doc (the documented reader, nvdim=dim)",
+            "h5_roundtrip_partial excludes the unit string 'None' (false of the code: unit_None_is_lost, finding D22)",
+            "int64 -> float64 conversion on reading is exact in the rational model; beyond 2^53 it is not in binary64 "
+            "(finding D23): oracle only"]
 BUDGET = {"quick": 75, "thorough": 700}
 
 DIMNAMES = ["x", "y", "z", "a", "b", "c", "u", "v", "w", "t", "ξ", "len", "x0", "r_1"]
